@@ -81,8 +81,10 @@ func (p *Pubrec) Unpack(r io.Reader) error {
 		if !ValidateCode(PUBREC, p.Code) {
 			return codes.ErrProtocol
 		}
-		return p.Properties.Unpack(bufr, PUBREC)
+		if err := p.Properties.Unpack(bufr, PUBREC); err != nil {
+			return err
+		}
 	}
-	return nil
+	return endOfPacket(bufr)
 
 }
